@@ -65,7 +65,10 @@ def local_defs(fn, declid, definite_out_calls=()):
         if n.k == 'DeclStmt':
             for d, init in n.r.get('decls', []):
                 if d == declid:
-                    out.append((n, 'init', Node(fn, init) if init >= 0 else None))
+                    dn = n
+                    if len(n.r.get('decls', [])) > 1 and 'cfg' in fn.raw and d in fn.cfg.decl_vertex:
+                        dn = fn.cfg.V[fn.cfg.decl_vertex[d]].node      # the per-declarator DeclStmt clang synthesised
+                    out.append((dn, 'init', Node(fn, init) if init >= 0 else None))
         elif n.k == 'DeclRefExpr' and n.declid == declid:
             w = is_write_target(n)
             if w is not None:
@@ -716,3 +719,94 @@ def follow(fn, oracle, track=(), env=None, max_steps=5000):
         want = truth if pol else (not truth)
         nxt = [w for (w, lab) in labelled if lab[1] == want]
         v = nxt[0]
+
+
+# --------------------------------------------------------------------------- loop progress (K11)
+def loop_stagnant_cycle(fn, loop, var, flags=()):
+    """Is there a cycle through the head of `loop` (For/While/Do) on which the governing variable `var`
+    (decl id) is not strictly advanced? Returns a vertex path of such a cycle, or None.
+    Progress = `var += r` / `var -= r` with r proven non-zero by a dominating decision, `++var`/`--var`, the
+    unequal edge of a comparison of var with a snapshot local initialised from var, or a store of a false
+    constant to one of `flags` (locals the loop condition requires to be true)."""
+    cfg = fn.cfg
+    cond = loop.child('cond')
+    if cond is None:
+        raise AnalysisBroken('loop without a condition at ' + loop.loc)
+    first = None
+    for x in cond.walk():
+        if cfg.has_vertex(x):
+            v = cfg.vertex_of(x)
+            if first is None or cfg.dominates(v, first):
+                first = v
+    if first is None:
+        raise AnalysisBroken('loop condition has no CFG vertex at ' + loop.loc)
+    head = cfg.block_in[cfg.V[first].block]
+    progress = set()
+    for (n, kind, val) in local_defs(fn, var):
+        if not cfg.has_vertex(n):
+            continue
+        if kind == 'incdec':
+            progress.add(cfg.vertex_of(n))
+        elif kind == 'opassign' and (n.op in ('+=', '-=') or n.r.get('op') in ('+=', '-=')) and val is not None:
+            r = val.strip(casts=True)
+            if r.value is not None and r.value != 0:
+                progress.add(cfg.vertex_of(n))
+            elif r.k == 'DeclRefExpr':
+                for (a, pol) in controlling_atoms(fn, n):
+                    t = a.strip(casts=True)
+                    nz = (t.k == 'DeclRefExpr' and t.declid == r.declid and pol) or \
+                         (t.k == 'BinaryOperator' and t.op == '=' and refers_to_decl(t.children[0], r.declid) and pol) or \
+                         (t.k == 'BinaryOperator' and t.op == '!=' and refers_to_decl(t.children[0], r.declid) and t.children[1].strip(casts=True).value == 0 and pol)
+                    if nz:
+                        progress.add(cfg.vertex_of(n))
+    for fl in flags:
+        for (n, kind, val) in local_defs(fn, fl):
+            if kind == 'assign' and val is not None and val.strip(casts=True).value == 0 and cfg.has_vertex(n):
+                progress.add(cfg.vertex_of(n))
+    # snapshot comparisons
+    prog_edges = set()
+    for (b, a, pol) in branches(fn, lambda a: a.strip(casts=True).k == 'BinaryOperator' and a.strip(casts=True).op in ('==', '!=')):
+        t = a.strip(casts=True)
+        l, r = t.children
+        other = r if refers_to_decl(l, var) else l if refers_to_decl(r, var) else None
+        if other is None:
+            continue
+        o = other.strip(casts=True)
+        if o.k != 'DeclRefExpr' or o.decl.get('sc') != 'local':
+            continue
+        defs = local_defs(fn, o.declid)
+        if len(defs) == 1 and defs[0][1] == 'init' and defs[0][2] is not None and refers_to_decl(defs[0][2], var):
+            # snapshot must be taken inside the loop (after the head)
+            if cfg.vertex_of(defs[0][0]) in cfg.reach_from(head):
+                unequal_way = (not pol) if t.op == '==' else pol
+                prog_edges.add((b, unequal_way))
+
+    # a flag the loop condition requires: once a branch has seen it false the next evaluation of the loop
+    # condition leaves the loop (provided nothing sets it back to true)
+    for fl in flags:
+        if any(kind == 'assign' and (val is None or val.strip(casts=True).value != 0) for (n, kind, val) in local_defs(fn, fl)):
+            continue
+        for (b, a, pol) in branches(fn, lambda a, _fl=fl: refers_to_decl(a, _fl)):
+            prog_edges.add((b, not pol))
+
+    def eo(v, w, lab):
+        return not (lab is not None and isinstance(lab[1], bool) and (lab[0], lab[1]) in prog_edges)
+    # natural loop of `head`: vertices that reach a back edge source without passing the head
+    region = {head}
+    stack = [u for (u, lab) in cfg.pred[head] if cfg.dominates(head, u)]
+    while stack:
+        u = stack.pop()
+        if u in region:
+            continue
+        region.add(u)
+        stack.extend(x for (x, lab) in cfg.pred[u])
+    outside = set(range(len(cfg.V))) - region
+    for (w, lab) in cfg.succ[head]:
+        if w in progress or w in outside or not eo(head, w, lab):
+            continue
+        if w == head:
+            return [head, head]
+        p = cfg.path(w, lambda x: x == head, avoid=progress | outside, edge_ok=eo)
+        if p is not None:
+            return [head] + p
+    return None
